@@ -27,6 +27,7 @@ import (
 	authvesting "github.com/cosmos/cosmos-sdk/x/auth/vesting/types"
 	banktypes "github.com/cosmos/cosmos-sdk/x/bank/types"
 	govv1 "github.com/cosmos/cosmos-sdk/x/gov/types/v1"
+	slashingtypes "github.com/cosmos/cosmos-sdk/x/slashing/types"
 	stakingtypes "github.com/cosmos/cosmos-sdk/x/staking/types"
 	abci "github.com/tendermint/tendermint/abci/types"
 	"github.com/tendermint/tendermint/libs/log"
@@ -62,6 +63,12 @@ func KeyAcc(i int) Acc {
 func FreshAddr(i int) sdk.AccAddress {
 	p := secp256k1.GenPrivKeyFromSecret([]byte(fmt.Sprintf("fresh%d", i)))
 	return sdk.AccAddress(p.PubKey().Address())
+}
+
+// FreshAcc(i) is the key account behind FreshAddr(i).
+func FreshAcc(i int) Acc {
+	p := secp256k1.GenPrivKeyFromSecret([]byte(fmt.Sprintf("fresh%d", i)))
+	return Acc{Priv: p, Addr: sdk.AccAddress(p.PubKey().Address())}
 }
 
 func GovAuthority() string { return appparams.GetAuthority() }
@@ -193,6 +200,11 @@ func BuildGenesis(a *c4eapp.App, enc appparams.EncodingConfig, spec GenesisSpec)
 		Address: authtypes.NewModuleAddress(stakingtypes.BondedPoolName).String(),
 		Coins:   sdk.NewCoins(sdk.NewCoin(Denom, bondAmt)),
 	})
+
+	consAddr := sdk.ConsAddress(val.Address)
+	sg := slashingtypes.DefaultGenesisState()
+	sg.SigningInfos = []slashingtypes.SigningInfo{{Address: consAddr.String(), ValidatorSigningInfo: slashingtypes.NewValidatorSigningInfo(consAddr, 0, 0, time.Unix(0, 0).UTC(), false, 0)}}
+	gs[slashingtypes.ModuleName] = cdc.MustMarshalJSON(sg)
 
 	vest := spec.Vesting
 	if vest == nil {
